@@ -523,12 +523,75 @@ func checkC10(c *Ctx, r *Report) {
 		"R1 per-exchange responder state: wherever handleHTTP is called inside a loop, the responder passed is allocated inside the same loop iteration (the responder accumulates headers / Content-Length / Transfer-Encoding that frame the next response)",
 		"R2 the tunnel loop and the plain path call the same handleHTTP; request-path code in package proxy never branches on the dynamic type of the responder",
 		"R3 the two responders agree on SetHeader (Set), AddHeader (Add) and SetHeaders (see C08.R3)",
+		"R8 the tunnel loop stays in step: every path from an exchange back to http.ReadRequest consumes the rest of the request body, and the error edge of an exchange leaves the loop",
 		"R7 the raw responder selects chunked framing only where 1xx/204/304 and http.NoBody (the answer to HEAD) are excluded by the branch facts (also through a predicate helper)",
 		"R4/R6 exactly one response per exchange keeps requests and responses paired on the tunnel: every path through processRequest/handleHTTP writes a response (R4, shared with C16) and no path writes a second one — where a callee may already have answered, the caller's later writes are reachable only for error classes that callee returns without having written (R6; %w / errors.Is classes followed)",
 	}
 	r.NotDec = []string{"TLS framing", "byte-level equality with plain proxying", "state inside net/http's ResponseWriter"}
 	li := BuildLocks(c)
 	checkAnswered(c, r, li, "C10.R4")
+
+	// ---- R8: the tunnel stays in step. Before the loop reads the next request from the tunnel, (a) whatever is
+	// left of the current request's body has been consumed — otherwise those bytes are parsed as the next
+	// request — and (b) an exchange that ended with an error has ended the tunnel: after a failed or short
+	// write the client and the proxy no longer agree on where the next response starts.
+	for _, f := range c.FuncsNamed("(*" + proxyPkg + ".Proxy).handleCONNECT") {
+		for _, hc := range helperContexts(f, 2) {
+			g := hc.fn
+			var read, handle *ssa.Call
+			eachInstr(g, func(in ssa.Instruction) {
+				if x, ok := in.(*ssa.Call); ok {
+					switch calleeName(x) {
+					case "net/http.ReadRequest":
+						read = x
+					case "(*" + proxyPkg + ".Proxy).handleHTTP":
+						handle = x
+					}
+				}
+			})
+			if read == nil || handle == nil {
+				continue
+			}
+			reqV := extractOf(read, 0)
+			isDrain := func(in ssa.Instruction) bool {
+				x, ok := in.(*ssa.Call)
+				if !ok {
+					return false
+				}
+				n := calleeName(x)
+				if n != "io.Copy" && n != "io.CopyN" && n != "io.ReadAll" {
+					return false
+				}
+				for _, a := range callArgs(x) {
+					if _, pth := fieldPath(unconv(a)); len(pth) > 0 && pth[len(pth)-1] == "Body" {
+						if derivesFrom(a, func(v ssa.Value) bool { return reqV != nil && v == ssa.Value(reqV) }) {
+							return true
+						}
+					}
+				}
+				return false
+			}
+			// (a) every way from the exchange back to ReadRequest passes the drain
+			p0 := posOf(handle)
+			p0.i++
+			undrained := len(walkFrom(p0, isDrain, func(in ssa.Instruction) bool { return in == ssa.Instruction(read) }, nil)) > 0
+			r.Check(!undrained, "C10.R8", fnKey(g)+": the request body is consumed before the next request is read", c.InstrPos(handle), "every path from handleHTTP back to http.ReadRequest passes io.Copy(io.Discard, req.Body)", "the tunnel loop reads the next request without having consumed the rest of the current request's body: a body the handler did not read (cache hit, coalesced follower) is parsed as the next request and answered — the client's real next request gets that answer")
+			// (b) the error edge of the exchange does not lead back to ReadRequest
+			errBack := false
+			if errv := ssa.Value(handle); errv != nil {
+				for _, t := range nilTestsOn(g, errv) {
+					nonNil := t.blk.Succs[1-t.nilIdx]
+					if len(walkFrom(pos{nonNil, 0}, nil, func(in ssa.Instruction) bool { return in == ssa.Instruction(read) }, nil)) > 0 {
+						errBack = true
+					}
+				}
+				if len(nilTestsOn(g, errv)) == 0 {
+					errBack = true
+				}
+			}
+			r.Check(!errBack, "C10.R8", fnKey(g)+": a failed exchange ends the tunnel", c.InstrPos(handle), "the err != nil edge of handleHTTP cannot reach http.ReadRequest again", "after an exchange that ended with an error (e.g. the origin cut its body short of the announced Content-Length) the loop goes on reading requests: the next response is written into the middle of the broken one")
+		}
+	}
 
 	// ---- R7: framing on the raw connection. A response that cannot have a body (1xx, 204, 304, the answer to HEAD =
 	// http.NoBody) is never given a chunked transfer encoding: the terminating chunk would stay unread on the tunnel
